@@ -12,6 +12,7 @@ import (
 	"io"
 	"runtime"
 	"sync"
+	"sync/atomic"
 )
 
 // ErrTimeout is returned after the timeout,.
@@ -124,6 +125,9 @@ type Conn struct {
 	directIO   bool
 	closing    bool
 	shutdown   bool
+	// bufferedInput is the read buffer size the reader still has to hand to the
+	// messages (0: nothing to do).
+	bufferedInput int32
 }
 
 // NewClientCodecFunc is the function to make a new ClientCodec by socket.Messages.
@@ -180,8 +184,11 @@ func (conn *Conn) SetBufferSize(size int) {
 		s.SetBufferSize(size)
 	}
 	messages := conn.codec.Messages()
-	if set, ok := messages.(socket.BufferedInput); ok {
-		set.SetBufferedInput(size)
+	if _, ok := messages.(socket.BufferedInput); ok {
+		// The messages keep their read lock while the reader waits for the next
+		// message: calling SetBufferedInput from here would block until one arrives,
+		// forever on an idle connection. The reader applies the size between two reads.
+		atomic.StoreInt32(&conn.bufferedInput, int32(size))
 	}
 }
 
@@ -290,6 +297,11 @@ func (conn *Conn) recv() {
 	var messages = conn.codec.Messages()
 	var pipeline = scheduler.New(1, &scheduler.Options{Threshold: 2})
 	for err == nil {
+		if size := atomic.SwapInt32(&conn.bufferedInput, 0); size > 0 {
+			if set, ok := messages.(socket.BufferedInput); ok {
+				set.SetBufferedInput(int(size))
+			}
+		}
 		ctx := getContext()
 		ctx.buffer = conn.bufferPool.GetBuffer(0)
 		ctx.data, err = messages.ReadMessage(ctx.buffer)
